@@ -157,18 +157,18 @@ def _c2s_sig(t, bad, l):
 
 
 def run(ctx):
-    ctx.mc("httpm", "Wsgi", "MC_Wsgi.cfg", required_actions=["Serve"])
-    p1 = ctx.gen_paths("httpm", "Gen_Wsgi", "Gen_Wsgi.cfg", overrides={"ReqSel": 1, "AppSel": ctx.pick(2, 1), "MaxReq": 1, "L": 1})
+    ctx.mc("httpm", "Wsgi", "MC_Wsgi.cfg", timeout=ctx.pick(900, 3000), required_actions=["Serve"])
+    p1 = ctx.gen_paths("httpm", "Gen_Wsgi", "Gen_Wsgi.cfg", timeout=ctx.pick(900, 3000), overrides={"ReqSel": 1, "AppSel": ctx.pick(2, 1), "MaxReq": 1, "L": 1})
     ctx.replay(p1, replayer, label="s2c", nontrivial=lambda e, p: True)
-    p1b = ctx.gen_paths("httpm", "Gen_Wsgi", "Gen_Wsgi.cfg", overrides={"ReqSel": 2, "AppSel": 1, "MaxReq": 1, "L": 1})
+    p1b = ctx.gen_paths("httpm", "Gen_Wsgi", "Gen_Wsgi.cfg", timeout=ctx.pick(900, 3000), overrides={"ReqSel": 2, "AppSel": 1, "MaxReq": 1, "L": 1})
     ctx.replay(p1b, replayer, label="s2c", nontrivial=lambda e, p: True)
     k = ctx.pick(2, 3)
-    p2 = ctx.gen_paths("httpm", "Gen_Wsgi", "Gen_Wsgi.cfg", overrides={"ReqSel": 2, "AppSel": 2, "MaxReq": k, "L": k, "Protos": '{"http"}'})
+    p2 = ctx.gen_paths("httpm", "Gen_Wsgi", "Gen_Wsgi.cfg", timeout=ctx.pick(900, 3000), overrides={"ReqSel": 2, "AppSel": 2, "MaxReq": k, "L": k, "Protos": '{"http"}'})
     ctx.replay(p2, replayer, label="s2c")
     ctx.cov["exhaustive"] = True
     n = ctx.pick(500, 10000)
     traces = framework.pool_map(random_trace, [(i + 1, ctx.seed * 1000003 + i) for i in range(n)])
-    ctx.validate("httpm", "Trace_Wsgi", "Trace_Wsgi.cfg", traces, sig_fn=_c2s_sig)
+    ctx.validate("httpm", "Trace_Wsgi", "Trace_Wsgi.cfg", traces, timeout=ctx.pick(900, 3000), sig_fn=_c2s_sig)
     ctx.cov["rule"] = ("paths: every request of the table (9 paths x 2 queries x 2 methods, 9 Host shapes x 2 versions, absent Host, "
                        "6 header sets, bodies with/without Content-Type) x application table x {http, https}, one per connection in 3 "
                        "wire variants, and every sequence of %d keep-alive requests over reduced tables; plus random recorded "
